@@ -268,6 +268,8 @@ func main() {
 	switch os.Args[1] {
 	case "fieldtable":
 		genFieldTable(os.Args[2], os.Args[3])
+	case "racetable":
+		genRaceTable(os.Args[2], os.Args[3])
 	case "syncskel":
 		genSyncSkeleton(os.Args[2], os.Args[3])
 	default:
